@@ -28,6 +28,14 @@ out += list(c11.events({"kind": "tm_code", "nwork": 1, "gamma": "a_", "code": 77
 out += list(c20.one({"kind": "pairs", "k": 2, "S": "ab", "c1": 9, "c2": 9, "p2": "t"}))
 out += [e for e in c06.dfa_events({"kind": "exh_dfa", "k": 3, "S": "ab", "code": 2345, "pool": 0, "perm": 0}) if e["op"] == "rip_trace"]
 out += [e for e in c09.pc_events(pdasrc.build(pdasrc.SPECIAL[0]), pdasrc.SPECIAL[0], rng, 5)][:1]
+from harness.props import cfgsrc
+out += [e for e in c08.events({"kind": "cfg_rules", "rules": [["S", "aSbA"], ["S", ""], ["A", "S"], ["A", "ab"]]}, 2)
+        if e["op"] == "chomsky_phase" and e["phase"] in (2, 4)]
+from harness import dfaops_replay
+line = {"op": "reverse", "d1": {"Q": ["q1", "trap1"], "S": ["a"], "T": [["q1", "a", "trap1"], ["trap1", "a", "q1"]], "q0": "q1", "F": ["q1"], "eps": "~none~"},
+        "d2": {"Q": ["t0"], "S": ["a"], "T": [["t0", "a", "t0"]], "q0": "t0", "F": [], "eps": "~none~"},
+        "res": {"Q": ["q1", "trap1", "q2"], "S": ["a"], "T": [["trap1", "a", "q1"], ["q1", "a", "trap1"], ["q2", "eps", "q1"]], "q0": "q2", "F": ["q1"], "eps": "eps"}}
+out += [e for e in dfaops_replay.replay_line(line) if e["op"] == "sched_replay"]
 print(json.dumps(out))
 ''' % common.VERIF
     p = subprocess.run([common.PY, "-c", code], env=common.worker_env(0), stdout=subprocess.PIPE,
@@ -64,6 +72,12 @@ def corrupt(e):
         if len(c["seq"]) < 2:
             return None
         c["seq"][1][2] += 1                  # head position of the second configuration
+    elif op == "chomsky_phase":
+        if "res" not in c or len(c["res"]["R"]) < 2:
+            return None
+        c["res"]["R"][0], c["res"]["R"][1] = c["res"]["R"][1], c["res"]["R"][0]      # the rule list in another order
+    elif op == "sched_replay":
+        c["actual"] = [c["actual"][0].replace("q2", "q3")]      # the code named its new state differently
     elif op == "pc_trace":
         if len(c["pops"]) < 2:
             return None
